@@ -13,6 +13,8 @@ EXPLANATION = (
     "dropped and DualLinkedList::drop pops until None. "
     "(R3 also: a freed block is recorded with exactly the extent that was handed out for it.) "
     '(R6) a fresh page is registered as free with exactly the size requested from the system allocator, and released with the layout it was requested with. '
+    "(R7) single owner: no function of des-cqueue makes a bitwise copy (ptr::read / copy / transmute_copy / ManuallyDrop::take ..) of a value "
+    "that is not plain data unless the copied-from owner is forgotten on every path — a second owner drops the payload a second time. "
     "Decides these necessary conditions only; not non-overlap / reuse-after-release over histories.")
 ASSUMPTIONS = ["the global allocator returns page_size-aligned pages", "raw-pointer aliasing is as the SAFETY comments state"]
 
